@@ -149,11 +149,15 @@ def run(ctx):
             for label, obj in containers(np, torch, gens, None, single=False):
                 if label.startswith("list/") and "rows" not in label:
                     continue
-                got = safe(lambda: (lambda d: [d.generators_permutations, d.central_state])(CayleyGraphDef.create(obj, central_state=list(gd["central"]))))
+                got = safe(lambda: (lambda d: [d.generators_permutations, d.central_state, [str(x) for x in d.generator_names], bool(d == base_def),
+                                               d.path_to_string(list(range(len(gens))))])(CayleyGraphDef.create(obj, central_state=list(gd["central"]))))
                 exp = ("ok", canon([base_def.generators_permutations, base_def.central_state]))
-                # generators may come back as numpy integers: compare by value
+                # generators may come back as numpy integers: compare by value; the WHOLE definition (default generator names, equality with the list-built
+                # definition - BFS results are accepted by a graph only if the definitions are equal -, path strings) must not depend on the container
                 cell = f"CayleyGraphDef.create(generators) | {label} | perm"
-                ok = got[0] == "ok" and [[int(v) for v in p] for p in got[1][0]] == [list(g) for g in gens]
+                ok = (got[0] == "ok" and [[int(v) for v in p] for p in got[1][0]] == [list(g) for g in gens]
+                      and got[1][2] == [str(x) for x in base_def.generator_names] and got[1][3] is True
+                      and got[1][4] == base_def.path_to_string(list(range(len(gens)))))
                 prev = cells.get(cell)
                 cells[cell] = (prev[0] and ok, prev[1] + 1) if prev else (ok, 1)
                 ctx.cov["evaluations"] += 1
